@@ -491,6 +491,18 @@ func imagesPart(ctx *gal.Ctx, fake, galago []byte) {
 		ims = append(ims, image{name: fmt.Sprintf("GALAGOPRO3 mutated at %v", at), data: b, heavy: true})
 	}
 
+	// synthetic BIOS regions: few names, many occurrences, compressed and nested areas
+	nSynth := ctx.Scale(45, 400)
+	for i := 0; i < nSynth; i++ {
+		b, descr := synthImage(rng, i)
+		im := image{name: fmt.Sprintf("synthetic #%d (%s, %#x bytes)", i, descr, len(b)), data: b, synth: true}
+		if i%7 == 3 {
+			im.data, _ = withIFD(b, i%3, 0)
+			im.name += " behind a flash descriptor"
+		}
+		ims = append(ims, im)
+	}
+
 	var d23all []string
 	parsed := 0
 	for i, im := range ims {
@@ -499,6 +511,10 @@ func imagesPart(ctx *gal.Ctx, fake, galago []byte) {
 			ctx.Count("derived-image-unparseable")
 			if im.pristine {
 				ctx.OracleFail(-1, "bundled image does not parse: "+fmt.Sprint(err), "pkg/uefi/uefi.go:ParseUEFIFirmwareBytes", map[string]interface{}{"image": im.name})
+			}
+			if im.synth {
+				ctx.Count("synthetic-image-unparseable")
+				fmt.Fprintf(os.Stderr, "c14: %s does not parse: %v\n", im.name, err)
 			}
 			continue
 		}
